@@ -353,6 +353,60 @@ def same_directory_scenarios():
     return out
 
 
+def dir_entries_scenarios():
+    """directory results whose entries have names the library itself uses for other purposes elsewhere (`*_tmp`, `*_error`, dot files,
+    `*.lock`, at the top and one level down): the migrated result is the SAME tree, byte for byte, for every subset of those entries
+    (seed C20_o: `copytree(..., ignore=...)`). The entries are put into the stored source result before the migration - a directory
+    result is whatever its run left in the directory."""
+    from taskchain.utils.migration import migrate_to_parameter_mode
+
+    def tree(path):
+        path = Path(path)
+        return sorted((str(q.relative_to(path)), None if q.is_dir() else q.read_bytes()) for q in path.rglob('*'))
+
+    odd = [('.vocab', 'v'), ('enc_tmp/x.txt', 'x'), ('fit_error', 'e'), ('sub/.hidden', 'h'), ('sub/part_tmp', 'p'), ('model.lock', 'l'), ('empty_tmp/', None)]
+    out = []
+    subsets = [tuple(i == j for i in range(len(odd))) for j in range(len(odd))] + [tuple([True] * len(odd))]
+    for chosen in subsets:
+        root = scratch.fresh('c20d')
+        w = worlds.World(families.chain3(kinds=('dir', 'json', 'dir')), root)
+        try:
+            src, tgt = os.path.join(root, 'src'), os.path.join(root, 'tgt')
+            ch = w.chain('v0', base_dir=src, parameter_mode=False)
+            for t in ch.tasks.values():
+                _ = t.value
+            dirs = {n: Path(t.data_path) for n, t in ch.tasks.items() if t.data_path is not None and Path(t.data_path).is_dir()}
+            names = [o for o, c in zip(odd, chosen) if c]
+            for d in dirs.values():
+                for rel, text in names:
+                    q = d / rel.rstrip('/')
+                    if text is None:
+                        q.mkdir(parents=True, exist_ok=True)
+                    else:
+                        q.parent.mkdir(parents=True, exist_ok=True)
+                        q.write_text(text)
+            before = {n: tree(d) for n, d in dirs.items()}
+            try:
+                with redirect_stdout(io.StringIO()):
+                    migrate_to_parameter_mode(w.make_config('v0', base_dir=src), Path(tgt), dry=False)
+            except Exception as e:  # noqa
+                out.append(('direntries: migration raised', f'directory results holding {[r for r, _ in names]}: {type(e).__name__}: {e}'))
+                continue
+            ch2 = w.chain('v0', base_dir=tgt)
+            for n, d in dirs.items():
+                if tree(d) != before[n]:
+                    out.append(('direntries: source result modified by migration', f'{n}: entries {[r for r, _ in names]}'))
+                t2 = ch2.tasks[n]
+                got = tree(t2.data_path) if t2.data_path is not None and Path(t2.data_path).is_dir() else None
+                if got != before[n]:
+                    lost = sorted(set(k for k, _ in before[n]) - set(k for k, _ in (got or [])))
+                    out.append(('direntries: migrated directory result is not the original tree', f'{n}: directory result holding {[r for r, _ in names]}: missing {lost}' if got is not None else f'{n}: no directory result in the target'))
+        finally:
+            w.dispose()
+            scratch.drop(root)
+    return out, len(subsets)
+
+
 def _results_only(lst):
     return sorted((k, v) for k, v in lst if not k.rstrip('/').endswith('_tmp'))
 
@@ -393,6 +447,10 @@ def run(tier, seed):
         res.merge(r)
     res.violations.extend(replay_same_dir())
     res.add('evaluations', 5)
+    de = replay_dir_entries()
+    res.violations.extend(de)
+    res.add('evaluations', 8)
+    res.coverage['dir_entry_subsets'] = 8
     res.coverage['cases'] = len(items)
     res.coverage['states'] = len(items)
     res.coverage['traces_validated_against_impl'] = res.coverage['evaluations']
@@ -405,6 +463,10 @@ def run(tier, seed):
     return res
 
 
+def replay_dir_entries():
+    return [Violation(k, m, {'direntries': True}) for k, m in dir_entries_scenarios()[0]]
+
+
 def replay_same_dir():
     return [Violation(f'samedir: {k}', m, {'samedir': True}) for k, m in same_directory_scenarios()]
 
@@ -415,5 +477,7 @@ def replay(case):
     tcv.quiet_library()
     if case.get('samedir'):
         return replay_same_dir()
+    if case.get('direntries'):
+        return replay_dir_entries()
     bad, c = run_case(case['world'], tuple(case['present']), tuple(case['seq']))
     return [Violation(f'{case["world"]}: {k}', m, case) for k, m in bad]
